@@ -91,6 +91,8 @@ std::optional<sqf::runtime::fileio::pathinfo> sqf::fileio::impl_default::get_inf
     // Prepare local tree-node list
     std::vector<std::shared_ptr<path_element>> nodes;
     nodes.push_back(m_virtual_file_root);
+    // Names of the nodes navigated into (the root has none)
+    std::vector<std::string> node_names;
 
 #if WIN32
     if (virt[0] != '/' && !(virt.length() >= 2 && virt[1] == ':'))
@@ -114,6 +116,7 @@ std::optional<sqf::runtime::fileio::pathinfo> sqf::fileio::impl_default::get_inf
                 if (nodes.back()->next.find(*it) != nodes.back()->next.end())
                 {
                     nodes.push_back(nodes.back()->next.at(*it));
+                    node_names.push_back(*it);
                     log(logmessage::fileio::ResolveVirtualNavigateDown(current.physical, virt, *it));
                 }
                 else
@@ -136,6 +139,7 @@ std::optional<sqf::runtime::fileio::pathinfo> sqf::fileio::impl_default::get_inf
             {
                 // Move dir-up
                 nodes.pop_back();
+                if (!node_names.empty()) { node_names.pop_back(); }
                 log(logmessage::fileio::ResolveVirtualNavigateUp(current.physical, virt));
             }
             else
@@ -153,6 +157,7 @@ std::optional<sqf::runtime::fileio::pathinfo> sqf::fileio::impl_default::get_inf
                 else
                 {
                     nodes.push_back(nodes.back()->next.at(*it));
+                    node_names.push_back(*it);
                     log(logmessage::fileio::ResolveVirtualNavigateDown(current.physical, virt, *it));
                 }
             }
@@ -168,6 +173,14 @@ std::optional<sqf::runtime::fileio::pathinfo> sqf::fileio::impl_default::get_inf
 
         // Set virtual to remaining and ensure no further dir-up occur
         virt.clear();
+        // Nodes that merely lead to a deeper mapping have no physical directory themself.
+        // The deepest node that actually got mapped is the one to look the remainder up in.
+        while (nodes.size() > 1 && nodes.back()->physical.empty())
+        {
+            virt.insert(0, "/" + node_names.back());
+            nodes.pop_back();
+            node_names.pop_back();
+        }
         for (; it != std::istream_iterator<StringDelimiter<'/'>>{}; ++it)
         {
             if (*it == ".."s) { /* skip dir-up */ continue; }
